@@ -256,6 +256,8 @@ func Main(t *testing.T, race bool) {
 		code = replayMain(t, c, os.Getenv("VERIF_REPLAY"))
 	case "parent":
 		code = parentMain(c)
+	case "cold":
+		code = coldMain(c)
 	case "list":
 		for _, id := range SortedKeys(props) {
 			fmt.Println(id)
